@@ -35,9 +35,12 @@ int main(void) {
             ctx.globals = g; ctx.num_globals = n; ctx.struct_unions = su; ctx.num_struct_unions = n;
             ctx.typenames = tn; ctx.num_typenames = n; ctx.enums = en; ctx.num_enums = n;
         } else if (line[0] == 'K') {
+            /* "K <hexkey> <hexbyte>": the key is length-delimited; <hexbyte> is the character that
+               follows it in the caller's buffer (a type string continues after an identifier) */
+            char *sp = strchr(line + 2, ' '); unsigned int trail = 'Z';
+            if (sp) { *sp = 0; sscanf(sp + 1, "%2x", &trail); }
             size_t l; char *s = unhex(line + 2, &l);
-            /* the key is length-delimited: make sure what follows it is not a NUL */
-            char *k = malloc(l + 8); memcpy(k, s, l); memset(k + l, 'Z', 7); k[l + 7] = 0;
+            char *k = malloc(l + 8); memcpy(k, s, l); memset(k + l, (int)trail, 7); k[l + 7] = 0;
             int r;
             switch (kind) {
             case 0: r = search_in_globals(&ctx, k, l); break;
